@@ -325,10 +325,10 @@ pub fn check_counts(sc: &Scenario, h: &History, infos: &[SysInfo], ro: &RunOut, 
                 .occs
                 .iter()
                 .filter(|o| infos[o.sid].parent == Some(b.sid) && o.enter > b.enter && o.enter <= b.end)
-                .map(|o| o.inst / 64)
+                .map(|o| crate::sys::inst_multi_base(o.inst))
                 .next();
             match base {
-                Some(base) => (1..=bi_info.times as u64).map(|k| base * 64 + k).collect(),
+                Some(base) => (1..=bi_info.times as u64).map(|k| crate::sys::inst_multi(base, k)).collect(),
                 None => vec![],
             }
         } else {
@@ -401,7 +401,7 @@ pub fn check_tl(h: &History, infos: &[SysInfo], ev: &[Event], out: &mut Vec<Viol
     // a dispatcher registered as a thread-local system: its systems belong to the thread-local
     // phase of the outer dispatch
     for o in h.occs.iter().filter(|o| infos[o.sid].parent.map(|p| infos[p].container).unwrap_or(false)) {
-        let top_inst = o.inst / 4096;
+        let top_inst = crate::sys::inst_container_top(o.inst);
         for x in h.occs.iter().filter(|x| x.inst == top_inst && infos[x.sid].parent.is_none() && x.kind != Kind::Tl) {
             if !(x.end < o.enter) {
                 out.push(vio(
